@@ -126,8 +126,12 @@ func (c *Coordinate) DistanceTo(other *Coordinate) time.Duration {
 		panic(DimensionalityConflictError{})
 	}
 
+	// Sum the two adjustments first: floating point addition is commutative
+	// but not associative, and the estimate must not depend on which of the
+	// two coordinates is asked (next to the guard below a different rounding
+	// would even pick a different branch).
 	dist := c.rawDistanceTo(other)
-	adjustedDist := dist + c.Adjustment + other.Adjustment
+	adjustedDist := dist + (c.Adjustment + other.Adjustment)
 	if adjustedDist > 0.0 {
 		dist = adjustedDist
 	}
@@ -138,7 +142,7 @@ func (c *Coordinate) DistanceTo(other *Coordinate) time.Duration {
 // other coordinate in seconds, not including adjustments. This assumes the
 // dimensions have already been checked to be compatible.
 func (c *Coordinate) rawDistanceTo(other *Coordinate) float64 {
-	return magnitude(diff(c.Vec, other.Vec)) + c.Height + other.Height
+	return magnitude(diff(c.Vec, other.Vec)) + (c.Height + other.Height)
 }
 
 // add returns the sum of vec1 and vec2. This assumes the dimensions have
